@@ -436,6 +436,15 @@ func (c *stepCheck) checkStop(hung bool) {
 			}
 			if spec.Repeat {
 				disc = "repeat/" + disc
+				// the only cancel check that can race with the stop is the one after the
+				// repeat interval; if the stop took effect while the step was still waiting
+				// out that interval, a new iteration is a policy failure, not the race
+				for _, prev := range c.truth.Runs {
+					if prev.Name == r.Name && prev.Attempt == r.Attempt-1 && prev.EndSeq != 0 && prev.EndSeq < t0s &&
+						t0 < prev.EndAt+time.Duration(spec.RepeatSec)*time.Second-10*time.Millisecond {
+						disc = "repeat/relaunched-after-interval-wait"
+					}
+				}
 			}
 			c.viol("C05", "start-after-stop", disc, "step %s attempt %d was started %v after the stop took effect (its state at that instant: %s)", r.Name, r.Attempt, spawnAt[r.Pid]-t0, c.statusAtStop[r.Name])
 			bump(c.out, "spawn_after_cancel")
